@@ -131,6 +131,18 @@ Definition glue_C10 (k : string) (a o : list value) : option verdict :=
     match a with
     | [VL hs; VB b; VB key; VB reqid; VL tab] => glue_recv 1 hs b key reqid tab o (fun _ => true)
     | _ => None end
+  else if is k "nts.trunctag" then
+    (* an honest datagram with its last (zero) ciphertext bytes cut off: judged by the strict clause *)
+    match a with
+    | [VL hs; VB b; VB key; VL tab] =>
+        match honests_of hs with
+        | Some hl => glue_recv 0 hs b key [] tab o (fun acc => C10_exact_ok hl b key 0 [] acc)
+        | None => None end
+    | [VL hs; VB b; VB key; VB reqid; VL tab; VZ _] =>
+        match honests_of hs with
+        | Some hl => glue_recv 1 hs b key reqid tab o (fun acc => C10_exact_ok hl b key 1 reqid acc)
+        | None => None end
+    | _ => None end
   else if is k "nts.session" then
     (* a long session: the client with request number n outstanding is handed the response to request number k *)
     match a with
@@ -327,7 +339,7 @@ Definition glue_C10 (k : string) (a o : list value) : option verdict :=
                                        VZ (match sc_decode (sc_encode c) with Ok _ => 1 | _ => 0 end)]
                             | _ => [VZ (code_of r); VZ 0; VB []; VB []; VB []; VZ 0] end) o (C10_tlv_ok ocode osame))
     | _, _ => None end
-  else if is k "srv.ip" || is k "srv.scion" || is k "srv.ctrhalf" then
+  else if is k "srv.ip" || is k "srv.scion" || is k "srv.ctrhalf" || is k "srv.trunctag" then
     (* the real IP / SCION listener: args honest packets, datagram (NTP/NTS payload), valid server
        keys [id key], AEAD answers; observed: replied (-1: the listener stopped answering), whether
        the reply verified at the client, whether every re-issued cookie opened to the session's keys *)
@@ -369,7 +381,8 @@ Definition glue_C10 (k : string) (a o : list value) : option verdict :=
               | _ => true end in
             Some (functional [vbool known; VZ e; VZ e; VZ e] (VZ 1 :: o)
                     (negb (replied <? 0) && C10_listener_ok hs b rb (negb (verified =? 0)) &&
-                     C10_reissue_ok rb (negb (cookies =? 0))))
+                     C10_reissue_ok rb (negb (cookies =? 0)) &&
+                     (if is k "srv.trunctag" then C10_exact_listener_ok hs b rb else true)))
         | _, _ => None end
     | _, _ => None end
   else if is k "ke.export" then
